@@ -8,12 +8,24 @@
 package main
 
 import (
+	"fmt"
+	"math/big"
 	"sort"
 	"strconv"
+	"strings"
 	"time"
 
 	sdkmath "cosmossdk.io/math"
+	accountsv1 "cosmossdk.io/x/accounts/v1"
+	banktypes "cosmossdk.io/x/bank/types"
+	sdk "github.com/cosmos/cosmos-sdk/types"
+	nvlock "github.com/sunriselayer/sunrise/x/accounts/non_voting_delegatable_lockup"
+	nvtypes "github.com/sunriselayer/sunrise/x/accounts/non_voting_delegatable_lockup/v1"
+	sdlock "github.com/sunriselayer/sunrise/x/accounts/self_delegatable_lockup"
+	sdtypes "github.com/sunriselayer/sunrise/x/accounts/self_delegatable_lockup/v1"
 	sctypes "github.com/sunriselayer/sunrise/x/shareclass/types"
+
+	"svh/sim"
 )
 
 func init() { register("lockup2", suiteLockup2) }
@@ -88,5 +100,96 @@ func suiteLockup2(e *Env) {
 				h.exec([]string{"send", "a0", "a0", "a1", "urise", amt.String()})
 			}
 		}
+		lk2SecondAccount(e, c, r.Bool())
+		lk2MultiDenomSend(e, c, r.Bool())
 	}
+}
+
+func lk2Init(c *sim.Chain, nv bool, owner sdk.AccAddress, funds int64, start, end time.Time) (sdk.AccAddress, error) {
+	coins := sdk.Coins{sdk.NewInt64Coin("urise", funds)}
+	var m *accountsv1.MsgInit
+	if nv {
+		m = &accountsv1.MsgInit{Sender: c.Accs[1].Addr.String(), AccountType: nvlock.CONTINUOUS_LOCKING_ACCOUNT,
+			Message: lkAny(&nvtypes.MsgInitNonVotingDelegatableLockupAccount{Owner: owner.String(), StartTime: start, EndTime: end}), Funds: coins}
+	} else {
+		m = &accountsv1.MsgInit{Sender: c.Accs[1].Addr.String(), AccountType: sdlock.CONTINUOUS_LOCKING_ACCOUNT,
+			Message: lkAny(&sdtypes.MsgInitSelfDelegatableLockupAccount{Owner: owner.String(), StartTime: start, EndTime: end}), Funds: coins}
+	}
+	resp, err, p := c.Exec(m)
+	if err != nil || p != nil {
+		if err == nil {
+			err = fmt.Errorf("panic %v", p)
+		}
+		return nil, err
+	}
+	return mustAddr(resp.(*accountsv1.MsgInitResponse).AccountAddress), nil
+}
+
+func lk2Send(c *sim.Chain, nv bool, caller, lock, sender, to sdk.AccAddress, amt sdk.Coins) string {
+	var m sdk.Msg
+	if nv {
+		m = &accountsv1.MsgExecute{Sender: caller.String(), Target: lock.String(), Message: lkAny(&nvtypes.MsgSend{Sender: sender.String(), ToAddress: to.String(), Amount: amt})}
+	} else {
+		m = &accountsv1.MsgExecute{Sender: caller.String(), Target: lock.String(), Message: lkAny(&sdtypes.MsgSend{Sender: sender.String(), ToAddress: to.String(), Amount: amt})}
+	}
+	_, err, p := c.Exec(m)
+	return class(err, p)
+}
+
+// Two accounts of the same type with different owners on one chain (one implementation object serves both): the owner of the
+// first must not be able to act for the second, and the second's own owner must.
+func lk2SecondAccount(e *Env, c *sim.Chain, nv bool) {
+	now := c.Time
+	first, err1 := lk2Init(c, nv, c.Accs[0].Addr, 500_000, now.Add(-100*time.Second), now.Add(-time.Second))
+	if err1 != nil {
+		e.Note("second-account scenario: init 1: %v", err1)
+		return
+	}
+	// use the first account once, by its owner
+	lk2Send(c, nv, c.Accs[0].Addr, first, c.Accs[0].Addr, c.Accs[1].Addr, sdk.Coins{sdk.NewInt64Coin("urise", 10)})
+	second, err2 := lk2Init(c, nv, c.Accs[2].Addr, 500_000, now.Add(-100*time.Second), now.Add(-time.Second))
+	if err2 != nil {
+		e.Note("second-account scenario: init 2: %v", err2)
+		return
+	}
+	pre := c.Bal(second, "urise")
+	cls := lk2Send(c, nv, c.Accs[0].Addr, second, c.Accs[0].Addr, c.Accs[0].Addr, sdk.Coins{sdk.NewInt64Coin("urise", 1000)})
+	e.Oracle("owner_only", cls == "err" && c.Bal(second, "urise").Equal(pre), "nv=%v owner of ANOTHER account of the same type acted on account 2: %s caller=a0 sender=a0 owner=a2", nv, cls)
+	cls = lk2Send(c, nv, c.Accs[2].Addr, second, c.Accs[2].Addr, c.Accs[1].Addr, sdk.Coins{sdk.NewInt64Coin("urise", 1000)})
+	e.Oracle("own_owner_can_act", cls == "ok", "nv=%v the owner of account 2 sends fully unlocked coins: %s", nv, cls)
+	e.Stat("lockup2.second_account")
+}
+
+// A third party deposits a denom that sorts before the locked one; the owner then sends both denoms in ONE message while nothing
+// is unlocked yet: the locked denom must stay.
+func lk2MultiDenomSend(e *Env, c *sim.Chain, nv bool) {
+	now := c.Time
+	const funds = 700_000
+	lock, err := lk2Init(c, nv, c.Accs[0].Addr, funds, now, now.Add(100_000*time.Second))
+	if err != nil {
+		e.Note("multi-denom scenario: init: %v", err)
+		return
+	}
+	for _, d := range []string{"uaaa", "uvrise"} {
+		c.Exec(&banktypes.MsgSend{FromAddress: c.Accs[1].Addr.String(), ToAddress: lock.String(), Amount: sdk.Coins{sdk.NewInt64Coin(d, 50)}})
+	}
+	for _, set := range []sdk.Coins{
+		{sdk.NewInt64Coin("uaaa", 50), sdk.NewInt64Coin("urise", funds)},
+		{sdk.NewInt64Coin("uaaa", 1), sdk.NewInt64Coin("urise", funds/2)},
+		{sdk.NewInt64Coin("urise", funds/2), sdk.NewInt64Coin("uvrise", 1)},
+	} {
+		cls := lk2Send(c, nv, c.Accs[0].Addr, lock, c.Accs[0].Addr, c.Accs[1].Addr, set)
+		// exact schedule bound at the current block time
+		el := new(big.Int).SetInt64(int64(c.Time.Sub(now) / time.Second))
+		unlocked := new(big.Int).Mul(big.NewInt(funds), el)
+		unlocked.Quo(unlocked, big.NewInt(100_000)).Add(unlocked, big.NewInt(1))
+		left := c.Bal(lock, "urise").BigInt()
+		minLeft := new(big.Int).Sub(big.NewInt(funds), unlocked)
+		var ds []string
+		for _, x := range set {
+			ds = append(ds, x.String())
+		}
+		e.Oracle("outflow_bound", left.Cmp(minLeft) >= 0, "nv=%v multi-denom send %s -> %s: locked denom left %s, must keep at least %s", nv, strings.Join(ds, "+"), cls, left, minLeft)
+	}
+	e.Stat("lockup2.multi_denom")
 }
